@@ -214,7 +214,102 @@ def explore(ctx, kind, mode, depth, ordered, tier, max_states=None, label=""):
     return stats
 
 
+def deep_walk(arg):
+    """one long deterministic history on a single live object (no rebuild between steps): the alphabet is cycled with
+    stride a from offset b; every step is checked like a BFS transition.  Replaces the 'long random sequences' of the
+    quantifier text by a fixed, enumerated family of long histories."""
+    import math
+
+    kind, a, b, L, mode, tier = arg["kind"], arg["a"], arg["b"], arg["len"], arg["mode"], arg["tier"]
+    alpha = OPS.alphabet(kind, tier)
+    n = len(alpha)
+    universe = OPS.config(kind, tier)["ids"] + [5, OPS.ABSENT]
+    res = {"evals": 0, "trans": 0, "viol": [], "outcomes": {}, "samples": [], "states": 0}
+    P = "C09" if mode == "C09" else "C19"
+    g, m = replay_history(kind, [])
+    hist = []
+    upto = arg.get("upto")
+
+    def V(op, shape, clause, ctype, what):
+        res["viol"].append({"sig": f"{P}/{SHORT[kind]}/{op[0]}/{shape}/{ctype}/deep:{clause}", "input": None, "what": what,
+                            "item": dict(arg, upto=len(hist) + 1), "detail": {"history_tail": hist[-6:]}})
+
+    seen = set()
+    for k in range(L if upto is None else min(L, 10 ** 9)):
+        op = alpha[(b + a * k + (k // n)) % n]
+        verdict, shape = OPS.classify(m, op)
+        if verdict == "skip":
+            continue
+        if mode == "C09" and verdict == "ill":
+            continue
+        if mode == "C19" and verdict == "ro" and shape not in ("absent", "absent-atom", "nobond", "self"):
+            continue
+        pre = snap(g)
+        ctype = _ctype(pre)
+        npre = norm(pre)
+        exc = None
+        try:
+            ret = OPS.apply_real(g, op)
+        except Exception as e:
+            exc = e
+        post = snap(g)
+        npost = norm(post)
+        res["trans"] += 1
+        res["evals"] += 1
+        res["outcomes"][verdict] = res["outcomes"].get(verdict, 0) + 1
+        stop = False
+        if verdict == "wf":
+            OPS.apply_model(m, op)
+            hist.append(op)
+            if exc is not None:
+                if mode == "C09":
+                    V(op, shape, "raised:" + type(exc).__name__, ctype, f"well-formed {op} raised {exc!r} at step {len(hist)} of a deep history")
+                stop = True
+            else:
+                d = diff(npost, m.observe())
+                if d:
+                    if mode == "C09":
+                        V(op, shape, "state:" + "+".join(d), ctype, f"after {op} (step {len(hist)}) containers disagree with the model in {d}")
+                    stop = True
+                else:
+                    inc = check_coherent(g, m, universe)
+                    if inc:
+                        if mode == "C09":
+                            V(op, shape, inc[0][0], ctype, f"after {op} (step {len(hist)}) view {inc[0][0]} disagrees with the model")
+                        stop = True
+            seen.add(canon(post, False))
+        elif verdict == "ill":
+            if exc is None:
+                V(op, shape, "accepted", ctype, f"ill-formed {op} did not raise at step {len(hist)} of a deep history")
+                stop = True
+            if npost != npre:
+                V(op, shape, "changed:" + "+".join(diff(npre, npost)), ctype, f"rejected {op} changed the graph at step {len(hist)}")
+                stop = True
+        else:
+            if npost != npre:
+                V(op, shape, "ro-changed:" + "+".join(diff(npre, npost)), ctype, f"read-only {op} changed the graph at step {len(hist)}")
+                stop = True
+        if stop or (upto is not None and len(hist) >= upto):
+            break
+    res["states"] = len(seen)
+    res["extra"] = {"deep_history_max_len": len(hist)}
+    if arg["a"] == 1:
+        res["samples"].append({"class": kind, "deep_history_length": len(hist), "tail": hist[-3:]})
+    return res
+
+
+def deep_items(kind, mode, tier):
+    import math
+
+    n = len(OPS.alphabet(kind, tier))
+    strides = [a for a in range(1, 200) if math.gcd(a, n) == 1][: (12 if tier == "quick" else 40)]
+    L = 600 if tier == "quick" else 3000
+    return [{"deep": True, "kind": kind, "a": a, "b": (7 * a) % n, "len": L, "mode": mode, "tier": tier} for a in strides]
+
+
 def replay_item(item):
-    """re-execute one transition without the explorer"""
+    """re-execute one transition (or one deep history up to the failing step) without the explorer"""
+    if item.get("deep"):
+        return deep_walk(item)
     return expand({"kind": item["kind"], "hist": item["hist"], "mode": item["mode"], "ordered": False,
                    "tier": item.get("tier", "quick"), "only_op": item["op"]})
